@@ -58,14 +58,14 @@ def one(item, all_checks):
         demo = os.path.join(d, "demo.py")
         if os.path.exists(demo):
             rc, out = sh([PY, demo], cwd=wt, timeout=900)
-            res["demo_clean"] = (out.strip().splitlines() or ["?"])[-1][:40]
+            res["demo_clean"] = "BROKEN" if "BROKEN" in out else ("OK" if "OK" in out else (out.strip().splitlines() or ["?"])[-1][:40])
         rc, out = sh(["git", "-C", wt, "apply", os.path.join(d, "patch.diff")])
         if rc:
             res["error"] = "apply: " + out[-300:]
             return res
         if os.path.exists(demo):
             rc, out = sh([PY, demo], cwd=wt, timeout=900)
-            res["demo_patched"] = (out.strip().splitlines() or ["?"])[-1][:40]
+            res["demo_patched"] = "BROKEN" if "BROKEN" in out else ("OK" if "OK" in out else (out.strip().splitlines() or ["?"])[-1][:40])
         rc, obl, out = run_check(prop, wt)
         res["own_rc"] = rc
         res["own"] = obl
